@@ -20,3 +20,137 @@ Lemma missing_fragment_rejected {A} dict edges nodes k name (later : res A) :
   In (k, name) nodes -> str_in name dict = false -> real_node k edges = true ->
   resolve_step dict edges nodes later = Err (ESyntax (S "no_fragment")).
 Proof. intros. unfold resolve_step. rewrite (rdm_rejects _ _ _ k name); auto. Qed.
+
+(** ** ring table *)
+Definition tbl_mem (m : Z) (t : list (Z * Z)) : bool := match tbl_get m t with Some _ => true | None => false end.
+Lemma tbl_get_notin m t : ~ In m (map fst t) -> tbl_get m t = None.
+Proof.
+  induction t as [|[k v] r IH]; cbn; intros H; [reflexivity|].
+  destruct (Z.eqb_spec k m) as [->|N]; [exfalso; apply H; now left|]. apply IH. intros HI; apply H; now right.
+Qed.
+Lemma tbl_get_in m t : tbl_get m t <> None -> In m (map fst t).
+Proof.
+  induction t as [|[k v] r IH]; cbn; intros H; [congruence|].
+  destruct (Z.eqb_spec k m) as [->|N]; [now left|right; now apply IH].
+Qed.
+Lemma tbl_get_app m t k v : tbl_get m (t ++ [(k, v)]) =
+  match tbl_get m t with Some x => Some x | None => if Z.eqb k m then Some v else None end.
+Proof. induction t as [|[k' v'] r IH]; cbn; [reflexivity|]. destruct (Z.eqb k' m); [reflexivity|exact IH]. Qed.
+Lemma tbl_del_keys m t x : In x (map fst (tbl_del m t)) -> In x (map fst t).
+Proof.
+  induction t as [|[k v] r IH]; cbn; intros H; [assumption|].
+  destruct (Z.eqb k m); [now right|]. cbn in H. destruct H; [now left|right; now apply IH].
+Qed.
+Lemma tbl_del_nodup m t : NoDup (map fst t) -> NoDup (map fst (tbl_del m t)).
+Proof.
+  induction t as [|[k v] r IH]; cbn; intros H; [constructor|]. inversion H as [|? ? Hn Hr]; subst.
+  destruct (Z.eqb k m); [assumption|]. cbn. constructor; [|now apply IH]. intros HI. apply Hn. now apply (tbl_del_keys m).
+Qed.
+Lemma tbl_get_del_same m t : NoDup (map fst t) -> tbl_get m (tbl_del m t) = None.
+Proof.
+  induction t as [|[k v] r IH]; cbn; intros H; [reflexivity|]. inversion H as [|? ? Hn Hr]; subst.
+  destruct (Z.eqb_spec k m) as [->|N].
+  - now apply tbl_get_notin.
+  - cbn. destruct (Z.eqb_spec k m); [congruence|]. now apply IH.
+Qed.
+Lemma tbl_get_del_other m m' t : m <> m' -> tbl_get m (tbl_del m' t) = tbl_get m t.
+Proof.
+  intros N. induction t as [|[k v] r IH]; cbn; [reflexivity|].
+  destruct (Z.eqb_spec k m') as [->|N2].
+  - destruct (Z.eqb_spec m' m); [congruence|reflexivity].
+  - cbn. destruct (Z.eqb k m); [reflexivity|exact IH].
+Qed.
+
+Lemma NoDup_snoc {A} (l : list A) x : NoDup l -> ~ In x l -> NoDup (l ++ [x]).
+Proof.
+  induction l as [|y r IH]; cbn; intros ND H; [repeat constructor; intros []|].
+  inversion ND as [|? ? Hn Hr]; subst. constructor.
+  - intros HI. apply in_app_or in HI. destruct HI as [HI|[->|[]]]; [contradiction|]. apply H. now left.
+  - apply IH; [assumption|]. intros HI. apply H. now right.
+Qed.
+Lemma tbl_get_none_notin m t : tbl_get m t = None -> ~ In m (map fst t).
+Proof.
+  induction t as [|[a b] r IH]; cbn; intros G HI; [assumption|].
+  destruct (Z.eqb_spec a m) as [->|N]; [discriminate|]. destruct HI as [E|HI]; [congruence|]. now apply IH.
+Qed.
+Lemma ring_step_inv m st e st' : ring_step st e = Ok st' -> NoDup (map fst (r_tbl st)) ->
+  NoDup (map fst (r_tbl st')) /\ tbl_mem m (r_tbl st') = xorb (tbl_mem m (r_tbl st)) (is_ring m e).
+Proof.
+  intros H ND. destruct e as [k [p|]|k m']; cbn in H.
+  - inversion H; subst; cbn. split; [assumption|now rewrite xorb_false_r].
+  - inversion H; subst; cbn. split; [assumption|now rewrite xorb_false_r].
+  - cbn [is_ring]. destruct (tbl_get m' (r_tbl st)) as [n0|] eqn:G.
+    + destruct (has_edge (r_edges st) k n0); [discriminate|]. inversion H; subst; cbn. split; [now apply tbl_del_nodup|].
+      unfold tbl_mem. destruct (Z.eqb_spec m m') as [->|N].
+      * rewrite tbl_get_del_same by assumption. now rewrite G.
+      * rewrite tbl_get_del_other by assumption. now rewrite xorb_false_r.
+    + inversion H; subst; cbn. split.
+      * rewrite map_app. cbn. apply NoDup_snoc; [assumption|]. now apply tbl_get_none_notin.
+      * unfold tbl_mem. rewrite tbl_get_app. destruct (Z.eqb_spec m m') as [->|N].
+        -- rewrite G. now rewrite Z.eqb_refl.
+        -- destruct (tbl_get m (r_tbl st)); [reflexivity|]. destruct (Z.eqb_spec m' m); [congruence|reflexivity].
+Qed.
+
+Lemma ring_run_inv m evs : forall st st', ring_run evs st = Ok st' -> NoDup (map fst (r_tbl st)) ->
+  NoDup (map fst (r_tbl st')) /\ tbl_mem m (r_tbl st') = xorb (tbl_mem m (r_tbl st)) (Nat.odd (ring_count m evs)).
+Proof.
+  induction evs as [|e r IH]; intros st st' H ND; cbn in H.
+  - inversion H; subst. split; [assumption|]. cbn. now rewrite xorb_false_r.
+  - destruct (ring_step st e) as [st1|] eqn:E; cbn in H; [|discriminate].
+    destruct (ring_step_inv m _ _ _ E ND) as [ND1 M1]. destruct (IH _ _ H ND1) as [ND2 M2].
+    split; [assumption|]. rewrite M2, M1. unfold ring_count. cbn [filter].
+    destruct (is_ring m e); cbn [length].
+    + rewrite Nat.odd_succ, <- Nat.negb_odd. fold (ring_count m r).
+      destruct (tbl_mem m (r_tbl st)), (Nat.odd (ring_count m r)); reflexivity.
+    + now rewrite xorb_false_r.
+Qed.
+Lemma ring_step_err st e er : ring_step st e = Err er -> er = ESyntax (S "double").
+Proof.
+  destruct e as [k [p|]|k m']; cbn; try discriminate.
+  destruct (tbl_get m' (r_tbl st)); [|discriminate]. destruct (has_edge (r_edges st) k z); [|discriminate].
+  intros H; now inversion H.
+Qed.
+Lemma ring_run_err evs : forall st er, ring_run evs st = Err er -> er = ESyntax (S "double").
+Proof.
+  induction evs as [|e r IH]; intros st er H; cbn in H; [discriminate|].
+  destruct (ring_step st e) as [st1|e1] eqn:E; cbn in H.
+  - now apply (IH st1).
+  - inversion H; subst. now apply (ring_step_err st e).
+Qed.
+(** a ring index read an odd number of times (in particular: opened and never closed) is rejected
+    with a SyntaxError, wherever its occurrences stand and whatever else the text contains *)
+Theorem dangling_rejected m evs : Nat.odd (ring_count m evs) = true ->
+  ring_model evs = Err (ESyntax (S "dangling")) \/ ring_model evs = Err (ESyntax (S "double")).
+Proof.
+  intros Ho. unfold ring_model. destruct (ring_run evs rt0) as [st|er] eqn:E; cbn.
+  - left. destruct (ring_run_inv m _ _ _ E) as [_ M]; [constructor|]. rewrite Ho in M. cbn in M.
+    unfold tbl_mem in M. destruct (r_tbl st); [discriminate|reflexivity].
+  - right. apply ring_run_err in E. now subst.
+Qed.
+Lemma ring_run_app a : forall b st, ring_run (a ++ b) st = (st' <- ring_run a st ;; ring_run b st').
+Proof.
+  induction a as [|e r IH]; intros b st; cbn; [reflexivity|].
+  destruct (ring_step st e); cbn; [apply IH|reflexivity].
+Qed.
+(** a ring bond whose two ends are already joined by an edge is rejected, wherever it stands *)
+Theorem duplicate_rejected pre post v m u st :
+  ring_run pre rt0 = Ok st -> tbl_get m (r_tbl st) = Some u -> has_edge (r_edges st) v u = true ->
+  ring_model (pre ++ EvRing v m :: post) = Err (ESyntax (S "double")).
+Proof.
+  intros Hp Hg He. unfold ring_model. rewrite ring_run_app, Hp. cbn. rewrite Hg, He. reflexivity.
+Qed.
+
+(** non-vacuity *)
+Example dangling_example :
+  Nat.odd (ring_count 3 [EvNode 0 None; EvRing 0 1; EvNode 1 (Some 0); EvRing 1 3; EvNode 2 (Some 1); EvRing 2 1]) = true /\
+  ring_model [EvNode 0 None; EvRing 0 1; EvNode 1 (Some 0); EvRing 1 3; EvNode 2 (Some 1); EvRing 2 1] = Err (ESyntax (S "dangling")) /\
+  ring_model [EvNode 0 None; EvRing 0 1; EvNode 1 (Some 0); EvNode 2 (Some 1); EvRing 2 1] = Ok [(2, 0); (1, 2); (0, 1)].
+Proof. repeat split; vm_compute; reflexivity. Qed.
+Example duplicate_example :
+  exists st, ring_run [EvNode 0 None; EvRing 0 2; EvNode 1 (Some 0)] rt0 = Ok st /\ tbl_get 2 (r_tbl st) = Some 0 /\
+             has_edge (r_edges st) 1 0 = true.
+Proof. eexists. repeat split; vm_compute; reflexivity. Qed.
+Example missing_fragment_example :
+  rdm [S "A"] [(0, 1, 1)] [(0, S "A"); (1, S "B")] = Err (ESyntax (S "no_fragment")) /\
+  rdm [S "A"] [(0, 1, 0)] [(0, S "A"); (1, S "B")] = Ok tt.
+Proof. split; vm_compute; reflexivity. Qed.
